@@ -113,11 +113,11 @@ pub fn c01_bilinear(a: &Val<G1>, b: &Val<G2>, ep: Ep) -> Result<u32, Bad> {
     // (iii) e(P1,P2)^(ab) == e(aP1, bP2) as a library-level equation
     let base = ep.call(G1::one(), G2::one())?;
     let pw = lib("Gt::pow", || base.pow(fr(&mulm(&a.d, &b.d, r()))))?;
-    ensure!(pw == e, "bilinearity", "{}: e(P1,P2)^(ab) != e(aP1,bP2) for P={} Q={}", ep.name(), a.json(), b.json());
+    ensure!(pw.to_slice()[..] == e.to_slice()[..], "bilinearity", "{}: e(P1,P2)^(ab) != e(aP1,bP2) for P={} Q={}", ep.name(), a.json(), b.json());
     // (v) every pairing value has order dividing r
     let one = lib("Gt::one", Gt::one)?;
     let o = lib("g^(r-1)*g", || e.pow(fr(&(r() - n(1)))) * e)?;
-    ensure!(o == one, "order", "{}: g^(r-1)*g != 1 for g = e(P,Q), P={} Q={}", ep.name(), a.json(), b.json());
+    ensure!(o.to_slice()[..] == one.to_slice()[..], "order", "{}: g^(r-1)*g != 1 for g = e(P,Q), P={} Q={}", ep.name(), a.json(), b.json());
     Ok(3)
 }
 pub fn c01_additive(a: &Val<G1>, a2: &Val<G1>, b: &Val<G2>, b2: &Val<G2>, ep: Ep) -> Result<u32, Bad> {
@@ -129,7 +129,7 @@ pub fn c01_additive(a: &Val<G1>, a2: &Val<G1>, b: &Val<G2>, b2: &Val<G2>, ep: Ep
         e
     })?;
     let rhs = lib("Gt::mul", || ep.call(a.v, b.v).map(|x| ep.call(a2.v, b.v).map(|y| x * y)))???;
-    ensure!(lhs == rhs, "additivity", "{}: e(P+P',Q) != e(P,Q)e(P',Q) for P={} P'={} Q={}", ep.name(), a.json(), a2.json(), b.json());
+    ensure!(lhs.to_slice()[..] == rhs.to_slice()[..], "additivity", "{}: e(P+P',Q) != e(P,Q)e(P',Q) for P={} P'={} Q={}", ep.name(), a.json(), a2.json(), b.json());
     // e(P, Q+Q') = e(P,Q) e(P,Q')
     let sum2 = lib("Q+Q'", || b.v + b2.v)?;
     let sv2 = Val::<G2> { d: addm(&b.d, &b2.d, r()), rep: Rep::LibSub, v: sum2 };
@@ -138,13 +138,13 @@ pub fn c01_additive(a: &Val<G1>, a2: &Val<G1>, b: &Val<G2>, b2: &Val<G2>, ep: Ep
         e
     })?;
     let rhs = lib("Gt::mul", || ep.call(a.v, b.v).map(|x| ep.call(a.v, b2.v).map(|y| x * y)))???;
-    ensure!(lhs == rhs, "additivity", "{}: e(P,Q+Q') != e(P,Q)e(P,Q') for P={} Q={} Q'={}", ep.name(), a.json(), b.json(), b2.json());
+    ensure!(lhs.to_slice()[..] == rhs.to_slice()[..], "additivity", "{}: e(P,Q+Q') != e(P,Q)e(P,Q') for P={} Q={} Q'={}", ep.name(), a.json(), b.json(), b2.json());
     Ok(6)
 }
 pub fn c01_identity(a: &Val<G1>, b: &Val<G2>, ep: Ep) -> Result<u32, Bad> {
     let e = expect_pairing(ep, a, b)?;
     let one = lib("Gt::one", Gt::one)?;
-    ensure!(e == one, "identity-not-one", "{}(P, Q) != Gt::one() although an operand is the identity: P={} Q={}", ep.name(), a.json(), b.json());
+    ensure!(e.to_slice()[..] == one.to_slice()[..], "identity-not-one", "{}(P, Q) != Gt::one() although an operand is the identity: P={} Q={}", ep.name(), a.json(), b.json());
     Ok(1)
 }
 pub fn c01_run(run: &Run) {
@@ -161,7 +161,7 @@ pub fn c01_run(run: &Run) {
         |i| {
             let ep = Ep::ALL[i as usize];
             let e = ep.call(G1::one(), G2::one())?;
-            ensure!(e != Gt::one(), "degenerate", "{}(P1, P2) == 1", ep.name());
+            ensure!(e.to_slice()[..] != Gt::one().to_slice()[..], "degenerate", "{}(P1, P2) == 1", ep.name());
             ensure!(e.to_slice()[..] == gpow_bytes(&N::one())[..], "wrong-value", "{}(P1,P2) differs from the reference pairing of the generators", ep.name());
             Ok(Tally::new(1, true, 0))
         },
@@ -345,7 +345,7 @@ pub fn c03_pair(a: &Val<G1>, b: &Val<G2>) -> Result<u32, Bad> {
     for ep in Ep::ALL {
         let e = expect_pairing(ep, a, b)?;
         if let Some(f) = first {
-            ensure!(f == e, "entry-points-disagree", "{} differs from pairing() for P={} Q={}", ep.name(), a.json(), b.json());
+            ensure!(f.to_slice()[..] == e.to_slice()[..], "entry-points-disagree", "{} differs from pairing() for P={} Q={}", ep.name(), a.json(), b.json());
         } else {
             first = Some(e);
         }
